@@ -15,7 +15,7 @@ impl Property for C13 {
         "C13"
     }
     fn rule(&self) -> &'static str {
-        "profile `faults`: total programs with clock rows, both driver types, subset/permuted output layouts (in one case in sixteen a first answer without any entry, to which a later answer adds one), and either a failure plan (call index j counted over all calls the driver sees, constructor = 0, write-only calls included; the error carries a unique id) or a deviation plan (at the output-reading call of a checked row: drop, add, duplicate in place, swap two, substitute another output-capable signal, or a same-named signal of different width). Oracle (metamorphic against the fault-free real run of the same test and script): j = 0 => try_iter returns Err(Driver(e)) with that id; otherwise all items before the failing call are equal and the item whose call failed is Err(Driver(e)) with that id; deviation => that item is an error, earlier items equal, and no later row is produced from the deviating answer; every row statement carries two probe inputs `(P)` reading device outputs, and in the row evaluated right after the deviating call a probe shows what the driver reported for P itself in that call, never another signal's value. Non-trivial: j >= 1, or a deviation on a layout of >= 2 signals; distinct by source + signals + driver + plan."
+        "profile `faults`: total programs with clock rows, both driver types, subset/permuted output layouts (in one case in sixteen a first answer without any entry, to which a later answer adds one), and either a failure plan (call index j counted over all calls the driver sees, constructor = 0, write-only calls included; the error carries a unique id) or a deviation plan (at the output-reading call of a checked row: drop, add, duplicate in place, swap two, substitute another output-capable signal, or a same-named signal of different width). In a third of the cases another iterator over the same TestCase has run before against a driver listing the same outputs in another order. Oracle (metamorphic against the fault-free real run of the same test and script): j = 0 => try_iter returns Err(Driver(e)) with that id; otherwise all items before the failing call are equal and the item whose call failed is Err(Driver(e)) with that id; deviation => that item is an error, earlier items equal, and no later row is produced from the deviating answer; every row statement carries two probe inputs `(P)` reading device outputs, and in the row evaluated right after the deviating call a probe shows what the driver reported for P itself in that call, never another signal's value. Non-trivial: j >= 1, or a deviation on a layout of >= 2 signals; distinct by source + signals + driver + plan."
     }
     fn cases(&self, tier: Tier) -> u64 {
         match tier {
@@ -24,7 +24,7 @@ impl Property for C13 {
         }
     }
     fn required_classes(&self) -> Vec<&'static str> {
-        vec!["fail-at-ctor", "fail-at-checked-row", "fail-at-mid-clock-write", "dev:drop", "dev:add", "dev:duplicate", "dev:swap", "dev:substitute", "dev:rewidth", "overriding-driver", "defaulting-driver", "row-after-deviation-checked", "probe-after-deviation-checked", "first-answer-without-entries"]
+        vec!["fail-at-ctor", "fail-at-checked-row", "fail-at-mid-clock-write", "dev:drop", "dev:add", "dev:duplicate", "dev:swap", "dev:substitute", "dev:rewidth", "overriding-driver", "defaulting-driver", "row-after-deviation-checked", "probe-after-deviation-checked", "first-answer-without-entries", "another-iterator-with-another-layout-ran-before"]
     }
     fn run(&self, s: &Streams) -> CaseOut {
         let mut out = CaseOut::new();
@@ -70,6 +70,15 @@ impl Property for C13 {
             return out;
         }
         let opts = RunOpts { max_next: 200, fuel: fuel_for(t.facts.steps), ..Default::default() };
+        // in a third of the cases another iterator over the same test has run before, against a
+        // driver that lists the same outputs in another order: nothing of it may carry over
+        if spec0.layout.len() >= 2 && dch.chance(1, 3) {
+            let mut pre = spec0.clone();
+            let n = pre.layout.len();
+            pre.layout.rotate_left(1 + dch.upto(n - 1));
+            out.class("another-iterator-with-another-layout-ran-before");
+            let _ = run_real(&tc, &built.sigs, &pre, &RunOpts { max_next: 1 + dch.upto(4), fuel: opts.fuel, ..Default::default() });
+        }
         let base = run_real(&tc, &built.sigs, &spec0, &opts);
         if base.ctor.is_some() || base.items.iter().any(|i| !matches!(i, RealItem::Row(_))) {
             // the fault-free run must be clean in this profile; anything else is C01/C10's business
